@@ -46,13 +46,39 @@ def judge_obs(case: dict, obs) -> core.CaseResult:
     return core.CaseResult(findings=oracles.c10_isolation(case, obs, ex), nontrivial=failing and len(case['nodes']) >= 2, labels=('exhaustive-small',), summary=None)
 
 
+def early_death_spec():
+    """A worker that dies at once, followed by many further submissions (each start of a process reaps finished children), with the
+    task monitor shown: the dead worker is gone before the monitor has ever looked at it."""
+    from hypothesis import strategies as st
+
+    @st.composite
+    def gen(draw):
+        k = draw(st.integers(8, 14))
+        nodes = [{'id': 0, 'type': 'NN', 'name': 'n0', 'mode': draw(st.sampled_from(['kill9', 'exit0', 'kill15'])), 'read': True, 'payload': None, 'deps': {'s': None}}]
+        for i in range(1, k):
+            nodes.append({'id': i, 'type': draw(st.sampled_from(['NN', 'Z', 'N'])), 'name': f'n{i}', 'mode': 'ok', 'read': True, 'payload': i, 'deps': {'s': None}})
+        if draw(st.booleans()):
+            nodes.append({'id': k, 'type': 'NN', 'name': f'n{k}', 'mode': 'ok', 'read': draw(st.booleans()), 'payload': None,
+                          'deps': {'list': [{'ref': 0, 'fresh': False}, {'ref': 1, 'fresh': False}]}})
+        lab = {'backend': 'fork', 'max_workers': len(nodes) + 1, 'continue_on_failure': True, 'bust_cache': False,
+               'storage': draw(st.sampled_from(['local', 'none'])), 'displays': True, 'context': {}}
+        return {'nodes': nodes, 'requested': [{'ref': i, 'fresh': False} for i in range(len(nodes))], 'lab': lab, 'pre_cached': [], 'schedule': []}
+    return gen()
+
+
 def plan(tier: str) -> list[dict]:
-    return list(dagprop.std_plan(tier, controlled=(11, 120, 2500), serial=(1, 60, 1200), fork=(3, 20, 500), spawn=(1, 6, 120))) + dagprop.exhaustive_jobs(tier, 4)
+    q = tier == 'quick'
+    jobs = list(dagprop.std_plan(tier, controlled=(11, 120, 2500), serial=(1, 60, 1200), fork=(3, 20, 500), spawn=(1, 6, 120))) + dagprop.exhaustive_jobs(tier, 4)
+    jobs.append({'engine': 'fork+displays+early-death', 'n': 6 if q else 150, 'hashseed': 5})
+    return jobs
 
 
 def run_job(rec: core.Recorder, job: dict, seed: int) -> None:
     if job['engine'] == 'exhaustive-small':
         dagprop.run_exhaustive_job(rec, job, judge_obs, failing=True, cached=False)
+        return
+    if job['engine'] == 'fork+displays+early-death':
+        core.run_hypothesis(rec, job['engine'], early_death_spec(), check, max_examples=job['n'], seed=seed, shrink=False)
         return
     eng = job['engine']
     from pbt.universe import vu
